@@ -831,7 +831,7 @@ impl HelperAttributesForCompareOp {
     }
     pub fn push_bounds(&self, op: CompareOp, wcb: &mut WhereClauseBuilder) -> bool {
         let mut use_bounds = true;
-        for &source in CompareOp::VARIANTS {
+        for &source in CompareOp::VARIANTS.iter().rev() {
             if source.is_effects_to(op) && use_bounds {
                 use_bounds = wcb.push_bounds(&self.get(source).bounds);
             }
